@@ -234,8 +234,19 @@ def ads(path):
                 vars_.append({"name": prefix + n, "dims": list(v.dimensions), "dtype": str(v.dtype),
                               "attrs": attrs, "hash": data_hash(v)})
         gatts = {a: canon_val(nc.getncattr(a)) for a in nc.ncattrs()}
+        # every global attribute with its type and shape (the comparison of
+        # the property oracle; `gatts` is the coarser view the model reads)
+        graw = {}
+        for prefix, g in walk(nc):
+            for a in g.ncattrs():
+                x = g.getncattr(a)
+                if isinstance(x, str):
+                    graw[prefix + a] = ["str", [], x]
+                else:
+                    x = np.asarray(x)
+                    graw[prefix + a] = [str(x.dtype), list(x.shape), x.ravel().tolist()]
         ngroups = sum(1 for _ in walk(nc)) - 1
-        return {"dims": dims, "vars": vars_, "gatts": gatts, "ngroups": ngroups}
+        return {"dims": dims, "vars": vars_, "gatts": gatts, "graw": graw, "ngroups": ngroups}
     finally:
         nc.close()
 
@@ -426,6 +437,40 @@ def why_not(w, have, ignore, used):
     return out[:4]
 
 
+def write_kw(kw):
+    """JSON options -> keyword arguments of cfdm.write."""
+    out = {}
+    for k, v in (kw or {}).items():
+        if k == "file_descriptors":
+            out[k] = {a: attr_value(x) for a, x in v.items()}
+        else:
+            out[k] = v
+    return out
+
+
+def attr_value(x):
+    """A JSON attribute value: text, or {"i4"|"f8"|...: [numbers]}."""
+    if isinstance(x, dict):
+        (dt, vals), = x.items()
+        a = np.array(vals, dtype=dt)
+        return a if a.size != 1 else a[0]
+    return x
+
+
+def norm_opts(kw):
+    """The options as the model reads them."""
+    kw = kw or {}
+    conv = kw.get("Conventions") or []
+    if isinstance(conv, str):
+        conv = [conv]
+
+    def aslist(x):
+        return [x] if isinstance(x, str) else list(x or [])
+    return {"conv": list(conv),
+            "desc": {a: canon_val(attr_value(x)) for a, x in (kw.get("file_descriptors") or {}).items()},
+            "glob": aslist(kw.get("global_attributes")), "vatt": aslist(kw.get("variable_attributes"))}
+
+
 def classify_exc(e):
     msg = str(e)
     if isinstance(e, ValueError) and "unable to append fields" in msg and "groups" in msg:
@@ -444,10 +489,23 @@ def run_case(case, scratch):
     out = {"id": case["id"], "steps": [], "setup": "ok"}
     try:
         s0 = [build(sp, scratch) for sp in case["s0"]]
-        cfdm.write(s0, path, fmt=fmt)
+        cfdm.write(s0, path, fmt=fmt, **write_kw(case.get("w_kw")))
+        out["created"] = ads(path)
+        if case.get("foreign"):
+            # global attributes put there by another tool
+            nc = netCDF4.Dataset(path, "a")
+            try:
+                for name, val in case["foreign"]:
+                    nc.setncattr(name, attr_value(val))
+            finally:
+                nc.close()
+        tk0 = Toks()
+        out["s0"] = [skel(f, tk0) for f in s0]
+        out["w_opts"] = norm_opts(case.get("w_kw"))
     except Exception as e:  # noqa
         out["setup"] = "setup-failed:" + type(e).__name__ + ":" + str(e)[:200]
         return out
+    a_kws = case.get("a_kw") or []
     for k, app in enumerate(case["appends"]):
         step = {"k": k}
         out["steps"].append(step)
@@ -466,6 +524,11 @@ def run_case(case, scratch):
             step["outcome"] = "read-before-failed:" + type(e).__name__ + ":" + str(e)[:200]
             break
         step["s1"] = [skel(g, toks) for g in new]
+        # the constructs as they are before the call: the comparison must not
+        # depend on what the writer may do to the objects it is given
+        new_ref = [g.copy() for g in new]
+        a_kw = a_kws[k] if k < len(a_kws) else None
+        step["opts"] = norm_opts(a_kw)
         step["before"] = before
         step["n_old"] = len(old)
         step["n_new"] = len(new)
@@ -483,7 +546,8 @@ def run_case(case, scratch):
         sys.stdout.write(json.dumps({"id": case["id"], "starting": k}) + "\n")
         sys.stdout.flush()
         try:
-            cfdm.write(new if len(new) != 1 or case.get("as_list") else new[0], path, fmt=fmt_append, mode="a")
+            cfdm.write(new if len(new) != 1 or case.get("as_list") else new[0], path, fmt=fmt_append, mode="a",
+                       **write_kw(a_kw))
             step["outcome"] = "ok"
         except Exception as e:  # noqa
             step["outcome"] = classify_exc(e)
@@ -498,7 +562,9 @@ def run_case(case, scratch):
         step["after"] = after
         orc = {}
         # netCDF4-level preservation
-        orc["gatts_same"] = after["gatts"] == before["gatts"]
+        orc["gatts_same"] = after["gatts"] == before["gatts"] and after["graw"] == before["graw"]
+        orc["gatts_diff"] = sorted(a for a in set(before["graw"]) | set(after["graw"])
+                                   if before["graw"].get(a) != after["graw"].get(a))
         bdims = {d[0]: d for d in before["dims"]}
         adims = {d[0]: d for d in after["dims"]}
         orc["dims_lost"] = sorted(n for n, d in bdims.items() if adims.get(n) != d)
@@ -513,7 +579,7 @@ def run_case(case, scratch):
             if step["outcome"] == "ok":
                 rest = [h for j, h in enumerate(got) if j not in used]
                 gl_held = sorted(before["gatts"])
-                miss2, used2 = match_all(new, rest, ignore=gl_held)
+                miss2, used2 = match_all(new_ref, rest, ignore=gl_held)
                 left = [h for j, h in enumerate(rest) if j not in used2]
                 via = []
                 for i in list(miss2):
@@ -522,7 +588,7 @@ def run_case(case, scratch):
                     try:
                         _via[0] += 1
                         p = os.path.join(scratch, f"rt_{os.getpid()}_{_via[0]}.nc")
-                        cfdm.write(new[i], p, fmt=fmt)
+                        cfdm.write(new_ref[i].copy(), p, fmt=fmt)
                         rt = [in_memory(h) for h in cfdm.read(p)]
                         os.remove(p)
                     except Exception:
@@ -535,10 +601,11 @@ def run_case(case, scratch):
                         miss2.remove(i)
                         via.append(i)
                 orc["new_matched_via_roundtrip"] = via
-                orc["new_missing"] = [repr(new[i]) for i in miss2]
+                orc["new_missing"] = [repr(new_ref[i]) for i in miss2]
+                orc["input_changed"] = [repr(g) for g, c in zip(new, new_ref) if not g.equals(c, verbose=0)]
                 orc["new_missing_idx"] = miss2
                 if miss2:
-                    orc["why"] = why_not(new[miss2[0]], left, gl_held, set())
+                    orc["why"] = why_not(new_ref[miss2[0]], left, gl_held, set())
                 orc["extra_fields"] = [repr(h) for h in left]
         except Exception as e:  # noqa
             orc["read_after_failed"] = type(e).__name__ + ":" + str(e)[:200]
